@@ -625,3 +625,30 @@ Proof.
   assert (E1 : (0 >? 2 ^ (w - 7) - 1) = false) by lia. rewrite E1. cbv zeta.
   assert (E2 : (128 <=? Z.of_N c) = false) by lia. rewrite E2. f_equal. lia.
 Qed.
+
+(* The value formula documented above WriteVarInt in serialize.h,
+     (a[len-1] & 0x7F) + sum(i=1..len-1, 128^i*((a[len-i-1] & 0x7F)+1)),
+   is what the reader computes on the bytes it consumes, hence what the writer encodes. *)
+Lemma read_varint_value w : 8 <= w -> forall s a n, bytes_ok s -> 0 <= a ->
+  read_varint_loop w a s = Ok n [] -> varint_value_acc a s = n.
+Proof.
+  intros Hw. induction s as [|c s IH]; intros a n Hs Ha H; [discriminate|].
+  inversion Hs as [|? ? Hc Hs']; subst.
+  rewrite read_step in H by assumption.
+  destruct (a >? 2 ^ (w - 7) - 1); [discriminate|]. cbv zeta in H.
+  assert (Hch : 0 <= Z.of_N c < 256) by lia.
+  destruct (128 <=? Z.of_N c) eqn:E.
+  - destruct (a * 128 + Z.of_N c mod 128 =? 2 ^ w - 1); [discriminate|].
+    destruct s as [|c2 s2]; [discriminate|].
+    cbn [varint_value_acc]. rewrite land127 by lia.
+    apply IH; [exact Hs' | pose proof (Z.mod_pos_bound (Z.of_N c) 128 ltac:(lia)); lia | exact H].
+  - inversion H; subst. cbn [varint_value_acc]. rewrite land127 by lia. reflexivity.
+Qed.
+
+Lemma varint_documented_value w n enc : varint_width_ok w -> 0 <= n <= 2 ^ w - 1 ->
+  write_varint w n = Some enc -> varint_value enc = n.
+Proof.
+  intros Hw Hn H. pose proof (varint_rt w n enc [] Hw Hn H) as R. rewrite app_nil_r in R.
+  unfold varint_value. apply (read_varint_value w ltac:(destruct Hw; lia) enc 0 n); [|lia|exact R].
+  apply (varint_enc_ok w n enc Hw H).
+Qed.
